@@ -4,6 +4,7 @@
 //!   `bin start <hexarg,hexarg,..|->`                         exit status of tftpd (or `running`)
 //!   `bin rt <flags> <timeout>`                                seconds until an unacknowledged DATA 1 is sent again
 //!   `bin early <flags> <timeout> <ws>`                        does a repeated ACK before the timeout bring a retransmission?
+//!   `bin slow <dup> <ws> <timeout>`                           a window that takes longer to send than the timeout; repeated ACK after it
 //!   `bin quiet <flags> <timeout>`                             is an upload whose peer fell silent given up (file removed)?
 //!   `bin xfer <flags> <d|u> <blk> <ws> <size> <4|6>`          tftpc against tftpd, files compared
 
@@ -132,6 +133,74 @@ pub fn run_bin(toks: &[&str], dir: &Path) -> String {
                     };
                     let _ = sock.send_to(&raw_error(0, "done"), tid);
                     format!("first={first} early={}", early as u8)
+                }
+                Err(_) => "noreply".to_string(),
+            };
+            let _ = child.kill();
+            let _ = child.wait();
+            r
+        }
+        "slow" => {
+            // a window that takes longer to send than the timeout lasts (duplicate-packets mode, 1 ms per copy): the timer
+            // starts when the window has been sent, so a repeated ACK right after the window brings nothing
+            let (dup, ws, tmo) = (toks[2].parse::<u64>().unwrap(), toks[3].parse::<u64>().unwrap(), toks[4].parse::<u64>().unwrap());
+            let blk = 8u64;
+            let content = pattern(5, 3 * ws * blk + 3);
+            std::fs::write(root.join("srv").join("w.bin"), &content).unwrap();
+            let port = free_port();
+            let mut args = server_args("-", &root, port, false);
+            args.extend(["--duplicate-packets".to_string(), dup.to_string()]);
+            let mut child = Command::new(bin("VERIF_TFTPD")).args(args).stdout(Stdio::null()).stderr(Stdio::null()).spawn().unwrap();
+            std::thread::sleep(Duration::from_millis(150));
+            let sock = UdpSocket::bind("127.0.0.1:0").unwrap();
+            let o = |k: tftpd::OptionType, v: usize| tftpd::TransferOption { option: k, value: v };
+            let rq = Packet::Rrq { filename: "w.bin".into(), mode: "octet".into(), options: vec![o(tftpd::OptionType::BlockSize, blk as usize), o(tftpd::OptionType::Windowsize, ws as usize), o(tftpd::OptionType::Timeout, tmo as usize)] };
+            sock.send_to(&rq.serialize().unwrap(), ("127.0.0.1", port)).unwrap();
+            sock.set_read_timeout(Some(Duration::from_millis(1500))).unwrap();
+            let mut buf = [0u8; 2048];
+            let r = match sock.recv_from(&mut buf) {
+                Ok((_, tid)) => {
+                    sock.send_to(&raw_ack(0), tid).unwrap();
+                    // take window after window until block 2 * ws has been seen (all its copies), acknowledging each window once
+                    let mut seen_last = 0u64;
+                    let mut acked = 0u64;
+                    sock.set_read_timeout(Some(Duration::from_millis(700))).unwrap();
+                    let t0 = Instant::now();
+                    while t0.elapsed() < Duration::from_secs(20) {
+                        match sock.recv_from(&mut buf) {
+                            Ok((n, _)) if n >= 4 && buf[1] == 3 => {
+                                let k = ((buf[2] as u64) << 8) | buf[3] as u64;
+                                if k == acked + ws {
+                                    seen_last += 1;
+                                    if seen_last == dup + 1 {
+                                        acked = k;
+                                        seen_last = 0;
+                                        if acked == 2 * ws {
+                                            break;
+                                        }
+                                        sock.send_to(&raw_ack(acked as u16), tid).unwrap();
+                                    }
+                                }
+                            }
+                            Ok(_) => {}
+                            Err(_) => break,
+                        }
+                    }
+                    // the second window is complete: repeat the ACK of the first one, then listen for half a second
+                    let complete = acked == 2 * ws;
+                    sock.send_to(&raw_ack(ws as u16), tid).unwrap();
+                    sock.set_read_timeout(Some(Duration::from_millis(500))).unwrap();
+                    let mut after = 0u64;
+                    let t1 = Instant::now();
+                    while t1.elapsed() < Duration::from_millis(500) {
+                        if let Ok((n, _)) = sock.recv_from(&mut buf) {
+                            if n >= 4 && buf[1] == 3 {
+                                after += 1;
+                            }
+                        }
+                    }
+                    let _ = sock.send_to(&raw_error(0, "done"), tid);
+                    format!("complete={} after={}", complete as u8, after)
                 }
                 Err(_) => "noreply".to_string(),
             };
@@ -351,6 +420,7 @@ pub fn gen_bin(_rng: &mut Rng, _count: u64, tier: &str) -> Vec<String> {
     out.push("bin quiet - 1".into());
     out.push("bin quiet s 1".into());
     out.push("bin quiet k 1".into());
+    out.push("bin slow 1 1300 1".into());
     let mut grid = vec![];
     for flags in ["-", "s", "d", "so"] {
         for (blk, ws) in [("512", "1"), ("8", "4"), ("1468", "8"), ("65464", "2"), ("1024", "64")] {
